@@ -428,6 +428,28 @@ def run_erange(prog, ctx=None):
                    "" if ok else "result of %s() reaches a success return (line %s) without any test of errno: out-of-range numerals saturate silently" % (callee_name(e), bad.get("l")),
                    {"call": norm(show(e, f))})
             res.count("strto_calls")
+        # the range error alone decides: from the edge on which errno equals ERANGE no success return is reachable (a second
+        # condition joined to the test - only overflow, only some values - lets part of the unrepresentable numerals through)
+        for bid in sorted(tests):
+            blk = f.blocks[bid]
+            t = blk.term
+            c = strip(t["cond"], all_casts=True)
+            if not (c.get("k") == "bin" and c.get("op") == "==" and len(blk.succ) == 2 and blk.succ[0] is not None):
+                continue
+            if not any(n.get("k") == "call" and callee_name(n) == "__errno_location" for n in walk(c)):
+                continue
+            T = blk.succ[0]
+            bad = None
+            for x in sorted({T} | set(f.reachable_from(T))):
+                for idx, el in enumerate(f.blocks[x].el):
+                    if el.get("k") == "ret" and el.get("e") is not None:
+                        rv = an.value_at(x, idx, el["e"])
+                        if rv is not None and rv.hi > 0:
+                            bad = el
+            ok = bad is None
+            res.ob("%s:errno-test-decides" % f.qn, ok, f, t.get("l", f.line),
+                   "" if ok else "after `%s` held, a success return (line %s) is still reachable: the range error of the C library is not refused on its own" % (
+                       norm(show(c, f))[:40], bad.get("l")))
     return res
 
 
